@@ -57,7 +57,10 @@ func (gw *eventBasedGateway) run(ctx context.Context, sender tracing.ISenderHand
 				terminationChannels := make(map[schema.IdRef]chan bool)
 				for _, sequenceFlow := range sequences {
 					if idPtr, present := sequenceFlow.Id(); present {
-						terminationChannels[*idPtr] = make(chan bool)
+						// buffered: the winning alternative notifies every other one exactly
+						// once and must not block when that alternative has already left its
+						// select (its own event fired at the same time and it lost the race)
+						terminationChannels[*idPtr] = make(chan bool, 1)
 					} else {
 						err := errors.NotFoundError{
 							Expected: sequenceFlow,
